@@ -18,7 +18,8 @@ INFO = {
                    'matching verifier unless signed portion and signature value are unchanged; the parameters-digest check '
                    'must hold iff the digest component equals the ideal hash of ApplicationParameters-to-end.',
     'bounds': {'quick': {'packets': 'Data and Interest, name 1..2 symbolic components, payload / parameters 0..2 symbolic '
-                                    'bytes, symbolic 64-bit field values', 'signers': 'digest, hmac, rsa, ecdsa (r in [32,72]), '
+                                    'bytes, symbolic 64-bit field values; Interests with CanBePrefix, MustBeFresh, InterestLifetime, HopLimit '
+                                    'each solver-chosen present/absent, ForwardingHint in some cases', 'signers': 'digest, hmac, rsa, ecdsa (r in [32,72]), '
                                     'ed25519', 'tampering': 'every byte position x any different value; every truncation; one '
                                     'TLV-level edit per boundary'}},
     'outside': ['cryptographic strength (ideal model)', 'more than one simultaneous edit'],
